@@ -4,10 +4,10 @@ package main
 // ACCEPT, VALIDATE-DOM, the acceptance-case default-field rule.
 
 import (
-	"sort"
 	"fmt"
 	"go/token"
 	"go/types"
+	"sort"
 	"strings"
 
 	"golang.org/x/tools/go/ssa"
